@@ -306,17 +306,26 @@ namespace bloch::compiler {
 
     Token Lexer::scanString() {
         // Strings are double-quoted and may span lines; we do not process escapes yet.
+        // The opening quote has already been consumed: remember where the token starts so the
+        // reported position is that of its first character even when the literal spans lines.
         size_t start = m_position;
+        const int startLine = m_line;
+        const int startColumn = m_column - 1;
         while (m_position < m_source.size() && peek() != '"') {
-            if (peek() == '\n')
+            if (peek() == '\n') {
+                (void)advance();
                 m_line++;
-            (void)advance();
+                m_column = 1;
+            } else {
+                (void)advance();
+            }
         }
 
         if (peek() == '"') {
             (void)advance();
-            return makeToken(TokenType::StringLiteral,
-                             std::string(m_source.substr(start - 1, m_position - start + 1)));
+            return Token{TokenType::StringLiteral,
+                         std::string(m_source.substr(start - 1, m_position - start + 1)), startLine,
+                         startColumn};
         }
 
         reportError("unterminated string literal");
@@ -327,12 +336,20 @@ namespace bloch::compiler {
     Token Lexer::scanChar() {
         // Char literals are simple: '\'' X '\'' with no escaping support for now.
         size_t start = m_position;
-        if (m_position < m_source.size())
-            (void)advance();
+        const int startLine = m_line;
+        const int startColumn = m_column - 1;
+        if (m_position < m_source.size()) {
+            // Keep line/column in step with the position when the character is a newline.
+            if (advance() == '\n') {
+                m_line++;
+                m_column = 1;
+            }
+        }
 
         if (peek() == '\'') {
             (void)advance();
-            return makeToken(TokenType::CharLiteral, std::string(m_source.substr(start - 1, 3)));
+            return Token{TokenType::CharLiteral, std::string(m_source.substr(start - 1, 3)),
+                         startLine, startColumn};
         }
 
         reportError("unterminated char literal");
